@@ -61,6 +61,10 @@ for line in sys.stdin:
     except Exception as e:
         res["is_err"] = type(e).__name__ + ": " + str(e)[:200]
     try:
+        res["is_view"] = [bool(mod.is_lfs_envelope(bytearray(b)))]
+    except Exception as e:
+        res["is_view_err"] = type(e).__name__ + ": " + str(e)[:200]
+    try:
         env = mod.decode_envelope(b)
         res["dec"] = {k: v for k, v in dataclasses.asdict(env).items() if v is not None}
     except Exception as e:
@@ -82,6 +86,22 @@ const c29JSDriver = `
     const res = {};
     try { res.is = !!isLfsEnvelope(value); } catch (e) { res.is_err = String(e).slice(0, 200); }
     try { res.dec = decodeEnvelope(value); } catch (e) { res.err = String(e).slice(0, 200); }
+    // the same bytes in the representations Kafka clients hand out: a (pooled) Buffer and
+    // views with a non-zero byteOffset into a larger ArrayBuffer (zero bytes in front / a
+    // marker-bearing look-alike in front, junk behind)
+    try {
+      const views = [Buffer.from(line, 'hex')];
+      for (const front of [Buffer.alloc(7), Buffer.from('{"kfs_lfs":1,"bucket":"front","key":"k","sha256":"s","pad":"................"}')]) {
+        const ab = new ArrayBuffer(front.length + value.length + 9);
+        const all = new Uint8Array(ab);
+        all.set(front, 0); all.set(value, front.length); all.fill(0x7b, front.length + value.length);
+        views.push(new Uint8Array(ab, front.length, value.length));
+      }
+      res.is_view = views.map((v) => !!isLfsEnvelope(v));
+      if (res.dec !== undefined) {
+        res.dec_view_same = views.every((v) => JSON.stringify(decodeEnvelope(v)) === JSON.stringify(res.dec));
+      }
+    } catch (e) { res.is_view_err = String(e).slice(0, 200); }
     process.stdout.write(JSON.stringify(res) + '\n');
   });
   rl.on('close', () => process.exit(0));
@@ -107,10 +127,13 @@ func c29StripTS(src string) (string, error) {
 }
 
 type c29Answer struct {
-	Is    *bool           `json:"is"`
-	IsErr string          `json:"is_err"`
-	Dec   json.RawMessage `json:"dec"`
-	Err   string          `json:"err"`
+	Is          *bool           `json:"is"`
+	IsView      []bool          `json:"is_view"` // same bytes handed over in other representations (offset views, Buffer, bytearray)
+	IsViewErr   string          `json:"is_view_err"`
+	DecViewSame *bool           `json:"dec_view_same"`
+	IsErr       string          `json:"is_err"`
+	Dec         json.RawMessage `json:"dec"`
+	Err         string          `json:"err"`
 }
 
 type c29Worker struct {
@@ -139,6 +162,23 @@ func (w *c29Worker) ask(value []byte) (c29Answer, error) {
 		return a, fmt.Errorf("%s worker: detection raised: %s", w.name, a.IsErr)
 	}
 	return a, nil
+}
+
+// representationViolation: an SDK must give the same answer for the same bytes whatever
+// container they arrive in.
+func (a c29Answer) representationViolation(name string, value []byte) string {
+	if a.IsViewErr != "" {
+		return fmt.Sprintf("%s SDK raised on an equivalent representation of %q: %s", name, value, a.IsViewErr)
+	}
+	for i, v := range a.IsView {
+		if a.Is != nil && v != *a.Is {
+			return fmt.Sprintf("%s SDK answers %v for %q (hex %x) as a standalone array but %v for the same bytes in representation #%d (pooled Buffer / view with non-zero byteOffset / bytearray)", name, *a.Is, value, value, v, i)
+		}
+	}
+	if a.DecViewSame != nil && !*a.DecViewSame {
+		return fmt.Sprintf("%s SDK decodes %q differently when it is passed as an offset view", name, value)
+	}
+	return ""
 }
 
 func (w *c29Worker) stop() {
@@ -469,69 +509,84 @@ func TestVF_C29_Envelopes(t *testing.T) {
 	defer sdks.stop()
 	rapid.Check(t, func(t *rapid.T) {
 		st.Eval()
-		e := c29GenEnvelope(t)
-		raw, err := EncodeEnvelope(e)
-		if err != nil {
-			t.Fatalf("EncodeEnvelope rejected a proxy-shaped envelope %+v: %v", e, err)
-		}
-		want := c29SanitizeEnv(e)
-		lossy := !reflect.DeepEqual(want, e)
-		if lossy {
-			st.Class("invalid-utf8-field(compared after U+FFFD substitution)")
-		}
-		nonASCII := c29HasNonASCII(e)
-		if nonASCII {
-			st.Class("non-ascii")
-		} else {
-			st.Class("ascii-only")
-		}
-		if len(raw) > 1024 {
-			st.Class("long(>1KiB)")
-		}
-		if len(e.OriginalHeaders) > 0 {
-			st.Class("with-original-headers")
-		}
-		if e.Size > 1<<31 {
-			st.Class("size>2^31")
-		}
-		// Go
-		if !IsLfsEnvelope(raw) {
-			t.Fatalf("Go IsLfsEnvelope=false for a produced envelope: %q", raw)
-		}
-		got, err := DecodeEnvelope(raw)
-		if err != nil {
-			t.Fatalf("Go DecodeEnvelope failed on a produced envelope %q: %v", raw, err)
-		}
-		if !reflect.DeepEqual(got, want) {
-			t.Fatalf("Go round trip changed fields:\n in  %+v\n out %+v\n raw %q", want, got, raw)
-		}
-		expect := c29ExpectMap(want)
-		for _, w := range []*c29Worker{sdks.py, sdks.js} {
-			if w == nil {
-				continue
-			}
-			a, err := w.ask(raw)
+		// The proxy encodes one envelope per flagged record of a batch before any of them is
+		// written out, so several envelopes are encoded first and consumed afterwards.
+		n := rapid.SampledFrom([]int{1, 2, 2, 3}).Draw(t, "envelopesInFlight")
+		envs := make([]Envelope, n)
+		raws := make([][]byte, n)
+		for i := range envs {
+			envs[i] = c29GenEnvelope(t)
+			r, err := EncodeEnvelope(envs[i])
 			if err != nil {
-				fmt.Println("VF-INCONCLUSIVE:", err)
-				t.Fatalf("%v", err)
+				t.Fatalf("EncodeEnvelope rejected a proxy-shaped envelope %+v: %v", envs[i], err)
 			}
-			if !*a.Is {
-				t.Fatalf("%s SDK does not recognise a produced envelope: %q", w.name, raw)
-			}
-			if a.Err != "" || len(a.Dec) == 0 {
-				t.Fatalf("%s SDK failed to decode a produced envelope %q: %s", w.name, raw, a.Err)
-			}
-			m, err := c29DecodedMap(a.Dec)
-			if err != nil {
-				t.Fatalf("%s SDK decode result unreadable: %v (%s)", w.name, err, a.Dec)
-			}
-			if d := c29DiffMaps(expect, m); d != "" {
-				t.Fatalf("%s SDK decoded different fields: %s\n raw %q", w.name, d, raw)
-			}
+			raws[i] = r
 		}
-		if nonASCII || len(raw) > 1024 {
-			st.NonTrivial(string(raw))
-			st.Sample(map[string]any{"envelope": string(raw)})
+		st.Class(fmt.Sprintf("envelopes-encoded-before-any-is-consumed:%d", n))
+		for i := range envs {
+			e, raw := envs[i], raws[i]
+			want := c29SanitizeEnv(e)
+			lossy := !reflect.DeepEqual(want, e)
+			if lossy {
+				st.Class("invalid-utf8-field(compared after U+FFFD substitution)")
+			}
+			nonASCII := c29HasNonASCII(e)
+			if nonASCII {
+				st.Class("non-ascii")
+			} else {
+				st.Class("ascii-only")
+			}
+			if len(raw) > 1024 {
+				st.Class("long(>1KiB)")
+			}
+			if len(e.OriginalHeaders) > 0 {
+				st.Class("with-original-headers")
+			}
+			if e.Size > 1<<31 {
+				st.Class("size>2^31")
+			}
+			// Go
+			if !IsLfsEnvelope(raw) {
+				t.Fatalf("Go IsLfsEnvelope=false for a produced envelope: %q", raw)
+			}
+			got, err := DecodeEnvelope(raw)
+			if err != nil {
+				t.Fatalf("Go DecodeEnvelope failed on a produced envelope %q: %v", raw, err)
+			}
+			if !reflect.DeepEqual(got, want) {
+				t.Fatalf("Go round trip changed fields:\n in  %+v\n out %+v\n raw %q", want, got, raw)
+			}
+			expect := c29ExpectMap(want)
+			for _, w := range []*c29Worker{sdks.py, sdks.js} {
+				if w == nil {
+					continue
+				}
+				a, err := w.ask(raw)
+				if err != nil {
+					fmt.Println("VF-INCONCLUSIVE:", err)
+					t.Fatalf("%v", err)
+				}
+				if v := a.representationViolation(w.name, raw); v != "" {
+					t.Fatalf("%s", v)
+				}
+				if !*a.Is {
+					t.Fatalf("%s SDK does not recognise a produced envelope: %q", w.name, raw)
+				}
+				if a.Err != "" || len(a.Dec) == 0 {
+					t.Fatalf("%s SDK failed to decode a produced envelope %q: %s", w.name, raw, a.Err)
+				}
+				m, err := c29DecodedMap(a.Dec)
+				if err != nil {
+					t.Fatalf("%s SDK decode result unreadable: %v (%s)", w.name, err, a.Dec)
+				}
+				if d := c29DiffMaps(expect, m); d != "" {
+					t.Fatalf("%s SDK decoded different fields: %s\n raw %q", w.name, d, raw)
+				}
+			}
+			if nonASCII || len(raw) > 1024 {
+				st.NonTrivial(string(raw))
+				st.Sample(map[string]any{"envelope": string(raw)})
+			}
 		}
 	})
 }
@@ -665,6 +720,7 @@ func (f *c29CountingFetcher) Stream(ctx context.Context, key string) (io.ReadClo
 
 // c29CheckDetect runs one byte string through the three SDKs; returns a violation text.
 func c29CheckDetect(st *vfkit.Stats, sdks *c29SDKs, v []byte, honourKnown bool) (violation string, inconclusive error, answers map[string]bool) {
+	v0 := v
 	goIs := IsLfsEnvelope(v)
 	answers = map[string]bool{"go": goIs}
 	// Go readers pass a non-envelope value through unchanged and do not touch storage.
@@ -688,6 +744,9 @@ func c29CheckDetect(st *vfkit.Stats, sdks *c29SDKs, v []byte, honourKnown bool) 
 			return "", err, answers
 		}
 		answers[w.name] = *a.Is
+		if v := a.representationViolation(w.name, v0); v != "" {
+			return v, nil, answers
+		}
 	}
 	skipJS := honourKnown && vfkit.Known(c29KnownJSMinLen) && c29IsJSMinLenCase(v)
 	skipPy := honourKnown && vfkit.Known(c29KnownPyIgnore) && c29IsPyIgnoreCase(v)
